@@ -51,6 +51,13 @@ impl Default for PoolConfig {
     /// Creates a new [`PoolConfig`] with the `max_size` being set to
     /// `cpu_count * 4` ignoring any logical CPUs (Hyper-Threading).
     fn default() -> Self {
+        // Verification builds: while a harness is installed on this thread
+        // skip the `/proc/cpuinfo` lookup (every harness sets `max_size`
+        // explicitly; the lookup dominated the cost of an execution).
+        #[cfg(deadpool_verif)]
+        if crate::verif::current().is_some() {
+            return Self::new(4);
+        }
         Self::new(num_cpus::get_physical() * 4)
     }
 }
